@@ -44,7 +44,7 @@ def gen_cases(tier, seed):
     for tag, s in seeds.all_seeds():
         for o in opt_variants(r, 4):
             cases.append({'shape': 'seed:' + tag, 'src': s, 'opts': o})
-    for i in range(120 if tier == "quick" else 4000):
+    for i in range(120 if tier == "quick" else 1500):
         s, _ = modgen.generate(seed, 20000 + i, guarded=(i % 2 == 0), size=8 + (i % 3) * 6)
         for o in opt_variants(r, 2):
             cases.append({'shape': 'modgen', 'src': s, 'opts': o})
@@ -84,9 +84,12 @@ def main(tier, seed):
             run.count('exhaustion_cases_held')
         run.cell('shape_class', c['shape'].split('|')[0].split(':')[0].split('.')[0])
         run.add(slim, r)
+    exh = [c for c in big if c['shape'].startswith('exhaustion')]
+    big = [c for c in big if not c['shape'].startswith('exhaustion')]
+    pool.run_cases(exh, 'vf.props.nameeng:run_case', timeout=180, batch=1, on_result=on, deadline=run.deadline)
+    pool.run_cases(small, 'vf.props.nameeng:run_case', timeout=60, batch=40, on_result=on, deadline=run.deadline)
+    pool.run_cases(medium, 'vf.props.nameeng:run_case', timeout=180, batch=3, on_result=on, deadline=run.deadline)
     pool.run_cases(big, 'vf.props.nameeng:run_case', timeout=180, batch=1, on_result=on, deadline=run.deadline)
-    pool.run_cases(medium, 'vf.props.nameeng:run_case', timeout=30, batch=3, on_result=on, deadline=run.deadline)
-    pool.run_cases(small, 'vf.props.nameeng:run_case', timeout=30, batch=40, on_result=on, deadline=run.deadline)
     return run.finish(
         rule='scope shapes: exhaustive nestings of def / async def / class (depth <= 2) x expression scopes (lambda, 4 comprehension kinds) x 28 '
              'binding forms x bind level x 26 reference positions (quick: sample) + random deeper nestings with colliding names, seeds, random '
